@@ -143,8 +143,12 @@ def random_field(rng: random.Random, used: set[str], versions: list[int], flex_f
             if tagged_nullable:
                 # tagged nullable => nullable in every tagged version with default null
                 f["nullableVersions"] = f["versions"]
-                f["default"] = "null"
-                constructs.append("default:null")
+                if typ == "string" and rng.random() < 0.35:
+                    f["default"] = rng.choice(("x", "none", "Null-ish", "0"))  # nullable, tagged, non-null default: null must be sent explicitly
+                    constructs.append("tagged:nullable-with-non-null-default")
+                else:
+                    f["default"] = "null"
+                    constructs.append("default:null")
             elif "default" not in f and not array and typ in ("uuid", "bool", "string", "bytes") + interpret.NUMERIC and rng.random() < 0.6:
                 f["ignorable"] = True
                 constructs.append("tagged:ignorable-no-default")
@@ -185,6 +189,12 @@ def random_field(rng: random.Random, used: set[str], versions: list[int], flex_f
     if can_tag and "nullableVersions" not in f and not use_common:
         _tag(rng, f, fv, flexible_fv, flex_from, tags, constructs, last)
         constructs.append("tagged:" + ("struct-array" if array else "struct"))
+    elif can_tag and "nullableVersions" in f and not array and not use_common and rng.random() < 0.6:
+        # tagged nullable struct: nullable wherever it is tagged, default null (the presence marker travels inside the tagged payload)
+        _tag(rng, f, fv, flexible_fv, flex_from, tags, constructs, last)
+        f["nullableVersions"] = f["versions"]
+        f["default"] = "null"
+        constructs.append("tagged:nullable-struct")
     return f
 
 
